@@ -60,6 +60,11 @@ CLAIMED["C08"] = ("effect (may-block) analysis over the call closure incl. inter
          "go/ssa model; blocking table for library calls (listed assumption); cache client wiring as in cmd/gnmi_collector; sync.Mutex acquisition judged through its critical sections",
          "DESIGN.md §3 C08")
 
+CLAIMED["C05"] = ("predicated path enumeration (E4) incl. goroutine-body analysis and loop unrolling, boundary evaluation of Len()==0, decision table of path.CompletePath over origin atoms, lockset of package cache (E3)",
+         "Static, all-paths: ONCE = walk then unconditional queue close, sender ends cleanly exactly on closed queue, closed only when drained; POLL = initial walk then one walk per trigger with EOF/err exits; one sync marker per walk placed after the last Query/Insert and never after a failed step; visitor inserts every leaf; no streaming registration in ONCE/POLL; complete CompletePath origin table; the all-targets walk never re-acquires the cache lock. Necessary conditions of 'exactly the matching snapshot, then sync'; exactness of matching itself (ctree.Query) is not decided.",
+         "go/ssa model; grpc stream and context behaviour assumed; loops unrolled to 2 iterations",
+         "DESIGN.md §3 C05")
+
 NA_REASON = {}
 DEFAULT_NA = "check not built yet in this round (static rules designed in DESIGN.md section 3); not claimed until the rule runs"
 
